@@ -173,7 +173,18 @@ class Broker:
 
         # Update _margin requirements. Bid-ask spread is implicitly paid
         # here and now.
-        self._last_marking_to_market_price[trade.contract] = trade.acq_price
+        quantity_post = self._holdings_quantity[trade.contract]
+        quantity_pre = quantity_post - trade.quantity
+        last_price = self._last_marking_to_market_price.get(trade.contract)
+        if quantity_post != 0 and quantity_pre != 0 and last_price is not None:
+            # Only the traded quantity pays the spread: the pre-existing
+            # position keeps its last marking-to-market price.
+            ref_price = (
+                quantity_pre * last_price + trade.quantity * trade.acq_price
+            ) / quantity_post
+        else:
+            ref_price = trade.acq_price
+        self._last_marking_to_market_price[trade.contract] = ref_price
         self.marking_to_market(trade.contract)
 
     def marking_to_market(
